@@ -38,13 +38,16 @@ type CacheScen struct {
 	Def       time.Duration // default expiration given at construction (0 = none)
 	// Warm: the cache has already grown, shrunk back and run a cleanup pass that evicted two entries
 	// (start from a non-initial state)
-	Warm     bool
-	Classes  int
-	CheckFn  bool
-	NoBlock  []bool
-	MaxSteps []int
-	Bound    int
-	Expect   int
+	Warm bool
+	// VisitorOp: the Range visitor performs this call on its first visit (re-entrancy; only the
+	// termination oracle is meaningful then: the call is not part of the recorded history)
+	VisitorOp *CIn
+	Classes   int
+	CheckFn   bool
+	NoBlock   []bool
+	MaxSteps  []int
+	Bound     int
+	Expect    int
 }
 
 func (cs *CacheScen) name() string {
@@ -62,6 +65,9 @@ func (cs *CacheScen) name() string {
 	}
 	if cs.Warm {
 		sb.WriteString("/after-grow-shrink-and-a-cleanup-pass")
+	}
+	if cs.VisitorOp != nil {
+		fmt.Fprintf(&sb, "/visitor:%v", *cs.VisitorOp)
 	}
 	for t, ops := range cs.Threads {
 		fmt.Fprintf(&sb, " T%d:", t)
@@ -276,9 +282,26 @@ func (cs *CacheScen) Scenario() *Scenario {
 					switch in.Op {
 					case CRange:
 						var ro cacheRangeOut
+						visited := false
 						c.Range(func(k, v int) bool {
 							if k < fillTarget {
 								ro.Pairs = append(ro.Pairs, [2]int{k, v})
+							}
+							if cs.VisitorOp != nil && !visited {
+								visited = true
+								vo := *cs.VisitorOp
+								if vo.K < 0 {
+									vo.K = k // the key being visited
+								}
+								if vo.V == 0 {
+									vo.V = 900
+								}
+								if vo.Op == CRange {
+									c.Range(func(int, int) bool { return true })
+								} else {
+									execCacheOp(c, vo, nil, nil)
+								}
+								l.take(t)
 							}
 							return true
 						})
